@@ -24,7 +24,7 @@ class Tracer:
         self.budget = budget
         self.signals = {}
         for f in plan or []:
-            if f["kind"] == "signal":
+            if f["kind"] == "signal" and f.get("line_event") is not None:
                 self.signals[int(f["line_event"])] = f
         self.next_sig = min(self.signals) if self.signals else None
         # record: dict(windows=[(lo_it, hi_it)], max=int) -> record sites whose
@@ -41,6 +41,16 @@ class Tracer:
         self._files = {}
         self.delivered = []
         self.in_handler = False
+        self._local = self._local_impl  # one stable object (CPython 3.12 drops opcode events when f_trace changes)
+        # opcode-level pre-emption inside selected functions (thorough deepening of the replace step)
+        self.opcode_funcs = set()
+        self.op_count = 0
+        self.op_signals = {}
+        for f in plan or []:
+            if f["kind"] == "signal" and f.get("opcode_event") is not None:
+                self.op_signals[int(f["opcode_event"])] = f
+        self.op_recorded = []
+        self.record_ops = False
 
     def _is_pkg(self, filename):
         r = self._files.get(filename)
@@ -51,6 +61,23 @@ class Tracer:
 
     def start(self):
         self.enabled = True
+        if self.opcode_funcs:
+            # CPython 3.12: the first request for opcode events in a process only takes effect for tracing
+            # sessions started afterwards; warm it up with a throw-away session
+            def _warm_local(frame, event, arg):
+                frame.f_trace_opcodes = True
+                return _warm_local
+
+            def _warm_global(frame, event, arg):
+                return _warm_local if frame.f_code.co_name == "_warm_target" else None
+
+            def _warm_target():
+                a = 1
+                return a + 1
+
+            sys.settrace(_warm_global)
+            _warm_target()
+            sys.settrace(None)
         sys.settrace(self._global)
 
     def stop(self):
@@ -76,7 +103,34 @@ class Tracer:
             "text": " ".join(text.split()),
         }
 
-    def _local(self, frame, event, arg):
+    def _local_impl(self, frame, event, arg):
+        if self.opcode_funcs and not frame.f_trace_opcodes \
+                and getattr(frame.f_code, "co_qualname", "") in self.opcode_funcs:
+            # (CPython 3.12 only honours f_trace_opcodes when it is set from the local trace function)
+            frame.f_trace_opcodes = True
+        if event == "opcode" and self.enabled and not self.in_handler:
+            self.op_count += 1
+            oc = self.op_count
+            if self.record_ops:
+                st = self.state
+                self.op_recorded.append([oc, getattr(frame.f_code, "co_qualname", ""), frame.f_lineno,
+                                         frame.f_lasti, st.iteration() if st else -1])
+            f = self.op_signals.pop(oc, None)
+            if f is not None:
+                st = self.state
+                s = self.site(frame)
+                s["lasti"] = frame.f_lasti
+                self.nb.note("signal", signum=f["signum"], ev=self.count, opcode_event=oc, site=s,
+                             iteration=(st.iteration() if st else None), phase=(st.phase() if st else None),
+                             stack=self.stack(frame))
+                handler = signal.getsignal(int(f["signum"]))
+                if callable(handler):
+                    self.in_handler = True
+                    try:
+                        handler(int(f["signum"]), frame)
+                    finally:
+                        self.in_handler = False
+            return self._local
         if event != "line" or not self.enabled or self.in_handler:
             return self._local
         self.count += 1
@@ -213,7 +267,7 @@ class Tracer:
 
         with open(path, "w") as f:
             json.dump({"sites": self.sites, "ev_sites": self.ev_sites, "marks": self.marks,
-                       "first_event": 1}, f)
+                       "first_event": 1, "ops": self.op_recorded}, f)
 
     def stack(self, frame, limit=12):
         out = []
